@@ -316,3 +316,12 @@ Example prof_plan_renders :
   | None => False
   end.
 Proof. vm_compute. intro H. inversion H. Qed.
+
+(* log queries with `| line_format` are planned (LineFormatPlanner is part of the planner model since builder b4-lf): the hypotheses
+   of process_preserves_plan / reexecution_same_text / log_query_reexecution_one_context_same_meaning are met by such a query; its plan
+   draws a context id per execution (the name of the Go template object) *)
+From Qryn Require proofs.LogqlTemplateProofs.
+Example line_format_queries_are_covered :
+  LogqlTemplateProofs.planned_and_processed LogqlTemplateProofs.lf_query LogqlTemplateProofs.lf_ctx = true /\
+  match plan_log LogqlTemplateProofs.lf_query true with Some p => draws_ids p = true /\ no_by_without p = true | None => False end.
+Proof. split; [exact LogqlTemplateProofs.line_format_query_planned | vm_compute; split; reflexivity]. Qed.
